@@ -69,8 +69,8 @@ class C13(object):
 
     def make_case(self, rng, idx, tier):
         if idx == 0:
-            return {'kind': 'ambient', 'models': ['SIM', 'PC', 'REG'] if tier == 'quick' else
-                    ['SIM', 'SIMEX1', 'PC', 'REG', 'REG2']}
+            return {'kind': 'ambient', 'models': ['SIM', 'PC', 'REG'] if tier == 'quick' else ['SIM', 'SIMEX1', 'PC', 'REG', 'REG2'],
+                    'scripts': 'fast' if tier == 'quick' else 'all'}
         return {'kind': 'batch', 'bseed': rng.getrandbits(48), 'n': BATCH}
 
     def run_case(self, case):
@@ -168,6 +168,10 @@ class C13(object):
                     built.append(name)
                 except Exception as e:
                     rec.count('ambient.build_failed')
+            which = case.get('scripts')
+            if which:
+                built += ['script:' + n for n in ambient.run_scripts(
+                    ambient.FAST_SCRIPTS if which == 'fast' else ambient.ALL_SCRIPTS, rec)]
         finally:
             monitors.unpatch(undo)
         for k, v in ins.counters.items():
